@@ -23,11 +23,12 @@ CORE_ALIASES = {"MODULE_ID": "int16", "HOST_ID": "int16", "MSG_TYPE": "int32", "
 
 
 class Namer:
-    def __init__(self, rng, tag="", long_names=0.04):
+    def __init__(self, rng, tag="", long_names=0.04, section_names=0.03):
         self.rng = rng
         self.used = set()
         self.tag = tag
         self.long_names = long_names
+        self.embedded = section_names
 
     def new(self, prefix, upper=True):
         while True:
@@ -37,6 +38,13 @@ class Namer:
                 w = "_".join(self.rng.choice(WORDS) for _ in range(self.rng.randint(9, 12)))[:self.rng.choice([40, 41, 42, 43, 44, 46, 50, 55])]
             n = f"{prefix}{self.tag}{w}{self.rng.randint(0, 99)}"
             n = n.upper() if upper else n.lower()
+            if upper and self.rng.random() < self.embedded:
+                # ordinary words that happen to contain a section prefix of one of the output formats
+                # (pyraMID_, orcHID_, forMT_ ..., and a mixed-case one)
+                n = f"{prefix}{self.tag}" + self.rng.choice(["PYRAMID_", "ORCHID_", "HUMID_", "XMT_", "Rehash_", "geohash_", "SUBMDF_", "predefines_"]) \
+                    + w.upper() + str(self.rng.randint(0, 99))
+            if upper and prefix == "M_" and self.rng.random() < self.embedded:
+                n = "hash_" + w.upper() + str(self.rng.randint(0, 99))     # a message whose name starts like an output section
             if n not in self.used:
                 self.used.add(n)
                 return n
@@ -115,13 +123,13 @@ def struct_layout(desc, name, cache=None):
 
 # --------------------------------------------------------------------------------------------- generator
 class Gen:
-    def __init__(self, rng: random.Random, allow_known=False, max_files=5, heavy_align=False, use_core=True, tag="", long_names=0.04):
+    def __init__(self, rng: random.Random, allow_known=False, max_files=5, heavy_align=False, use_core=True, tag="", long_names=0.04, section_names=0.03):
         self.rng = rng
         self.allow_known = allow_known
         self.max_files = max_files
         self.heavy = heavy_align
         self.use_core = use_core
-        self.nm = Namer(rng, tag, long_names)
+        self.nm = Namer(rng, tag, long_names, section_names)
         self.desc = Desc()
         self.next_id = rng.randint(1000, 4000)
         # message ids in definition order are ascending in most programs and descending in the others (a nested message
@@ -355,6 +363,10 @@ class Gen:
         elif shape in ("respell", "symlink", "cycle", "chain", "siblings", "subdirs"):
             k = max(k, 2 if shape != "respell" else 3)
         names = [f"f{i}.yaml" for i in range(k)]
+        if k >= 3 and shape in ("diamond", "dirgraph", "respell", "random", "symlink") and rng.random() < 0.3:
+            # a user file that happens to be called like the package's own core file (the leaf everybody imports)
+            names[0] = "core_defs.yaml"
+            self.desc.features.add("user_file_named_core_defs")
         dirs = [""] * k
         if shape in ("subdirs", "dirgraph") or (shape in ("random", "diamond", "siblings") and rng.random() < 0.5):
             dirs = [rng.choice(["", "sub/", "sub/deep/", "other/"]) for _ in range(k)]
